@@ -47,6 +47,9 @@ type CrashDS struct {
 	// the place where another goroutine's write can slip in between a read of the database and what the
 	// reader does with it (interleaving injection at the datastore boundary).
 	GetHook func(key string)
+	// ErrOnPrefix, when not empty, makes the next durable write that touches a key with this prefix fail with a
+	// plain I/O error (not applied), once.
+	ErrOnPrefix string
 }
 
 var _ ds.Batching = (*CrashDS)(nil)
@@ -117,6 +120,13 @@ func (d *CrashDS) ArmErrorAfter(k int) {
 	d.errAt = d.ops + k
 }
 
+// SetErrOnPrefix arms the one-shot write fault for keys with the given prefix.
+func (d *CrashDS) SetErrOnPrefix(prefix string) {
+	d.mu.Lock()
+	defer d.mu.Unlock()
+	d.ErrOnPrefix = prefix
+}
+
 // Disarm removes a pending crash/error.
 func (d *CrashDS) Disarm() {
 	d.mu.Lock()
@@ -173,6 +183,15 @@ func (d *CrashDS) mutate(kind string, keys []string, size int, apply func()) err
 		d.errAt = -1
 		d.mu.Unlock()
 		return errInjected
+	}
+	if d.ErrOnPrefix != "" {
+		for _, k := range keys {
+			if strings.HasPrefix(k, d.ErrOnPrefix) {
+				d.ErrOnPrefix = ""
+				d.mu.Unlock()
+				return errInjected
+			}
+		}
 	}
 	apply()
 	d.mu.Unlock()
